@@ -8,6 +8,7 @@ and independent of the regenerated constants.  All theorems quantify over every
 broker state `b`, every connection id and every first packet.
 -/
 import Mqtt.Proofs.BrokerLife
+import Mqtt.Proofs.BrokerRefineCor
 
 namespace Mqtt.Properties.C11
 open Mqtt.Iface.Broker Mqtt.Model.Broker Mqtt.Proofs.BrokerLife
@@ -256,5 +257,34 @@ theorem C11_one_connack (b : B) (c : Nat) (f : First) (authOk : Bool) :
 theorem C11_not_connect (b : B) (c : Nat) (authOk : Bool) :
     (∀ t, first b c (.other t) authOk = (b, [.closed c])) ∧ first b c .garbage authOk = (b, [.closed c]) :=
   ⟨fun _ => rfl, rfl⟩
+
+/-! ### the refinement theorem, specialised: refusals after any history -/
+
+open Mqtt.Proofs.BrokerRefine (okRun specRun okEv) in
+open Mqtt.Spec.Broker (Accepts) in
+/-- **Refinement (Proofs/BrokerRefine.lean: `Broker_refines_spec`) for C11.**
+After any history admitted by `okRun` (see C01_refines_reference for the side
+condition), a first packet that is not an acceptable CONNECT, on a connection
+number not in use, changes nothing on either side and is answered as the
+reference broker allows (`Accepts` of its `refused c codes`): by a close without
+CONNACK where `none` is among the reasons (always for a packet that is not a
+CONNECT, for reserved-flag and will-flag violations), or by a CONNACK with
+SessionPresent = 0 and one of the listed return codes (1 protocol level, 2
+client identifier, 4 authentication) followed by the close. -/
+theorem C11_refines_reference (es : List Ev) (hok : okRun {} es = true) (c : Nat) (f : First) (a : Bool)
+    (he : okEv (run {} es).1 (.first c f a) = true) (hacc : accepts f a = false) :
+    Accepts (Mqtt.Spec.Broker.step (specRun {} es).1 (.first c f a)).2 (step (run {} es).1 (.first c f a)).2 ∧
+    (step (run {} es).1 (.first c f a)).1 = (run {} es).1 ∧
+    (Mqtt.Spec.Broker.step (specRun {} es).1 (.first c f a)).1 = (specRun {} es).1 ∧
+    ∃ codes, (Mqtt.Spec.Broker.step (specRun {} es).1 (.first c f a)).2 = [.refused c codes] ∧
+      codes = Mqtt.Proofs.BrokerRefine.reasons f a ∧
+      (((step (run {} es).1 (.first c f a)).2 = [.closed c] ∧ none ∈ codes) ∨
+       ∃ k, k ≠ 0 ∧ some k ∈ codes ∧
+         (step (run {} es).1 (.first c f a)).2 = [.send c (.connack false k), .closed c]) := by
+  obtain ⟨_, r2, r3⟩ := Mqtt.Proofs.BrokerRefine.reach_step es hok _ he
+  obtain ⟨h1, h2, codes, h3, h4, h5⟩ :=
+    Mqtt.Proofs.BrokerRefine.refusal_refines (b := (run {} es).1) c f a hacc (specRun {} es).1
+  rw [r3]
+  exact ⟨by rw [← r3]; exact r2, h1, h2, codes, h3, h4, h5⟩
 
 end Mqtt.Properties.C11
